@@ -5,7 +5,7 @@
     [drawn n r l r'] says that the successive calls gen_bigint_range(1, n) on stream r return the bases l and leave r'. *)
 From Coq Require Import ZArith List Bool Znumtheory Lia.
 From RNT.Model Require Import Base Elementary.
-From RNT.Refine Require Import ElemProofs MillerRabinProofs LiarBound.
+From RNT.Refine Require Import ElemProofs MillerRabinProofs LiarBound RabinMonierSeq.
 Open Scope Z_scope.
 
 (** [P] early returns: false for n <= 1, true for 2, false for even n > 2, for every draw stream. *)
@@ -93,3 +93,52 @@ Theorem liar_bound_small : forall n d c, 2 < n < 1024 -> Z.odd n = true -> ~ pri
 Proof. exact LiarBound.liar_bound_small. Qed.
 Example liar_bound_small_ex : liars 9 = [1; 8] /\ liars 561 = [1; 50; 101; 103; 256; 305; 458; 460; 511; 560].
 Proof. exact LiarBound.liars_9. Qed.
+
+(** [P] Rabin-Monier: for every odd composite n > 9 the strong liars in [1, n) number at most (n - 1) / 4.
+    Proof (Refine/RabinMonier{Group,Cases,Nat,Z,Seq}.v): the liars lie in the subgroup {u : u^m = +-1} of (Z/n)^*, m = d 2^J with J the
+    largest index at which some unit reaches -1; Chinese remainders give index >= 2 per extra coprime factor of n; a square factor p^2 | n
+    gives a factor p^(k-1) through the p'-group {u : u^(2m) = 1}; for n = p q the cyclic group (Z/q)^* gives a unit with u^(n-1) <> 1. *)
+Theorem rabin_monier : forall n d c, 9 < n -> Z.odd n = true -> ~ prime n -> mr_decomp n = (d, c) ->
+  exists l, NoDup l /\ (forall a, In a l <-> 1 <= a < n /\ strong_liar n d c a) /\ 4 * Z.of_nat (length l) <= n - 1.
+Proof. exact RabinMonierSeq.rabin_monier. Qed.
+(** the hypotheses are met by 561, 1105 (Carmichael), 2047 (strong pseudoprime to base 2), 15, 49, with 10, 30, 242, 2, 6 liars;
+    n = 9 (2 liars out of 8) is outside 9 < n and covered by [liar_bound] *)
+Example rabin_monier_ex :
+  (~ prime 561 /\ mr_decomp 561 = (35, 4) /\ length (liars 561) = 10%nat) /\
+  (~ prime 1105 /\ mr_decomp 1105 = (69, 4) /\ length (liars 1105) = 30%nat) /\
+  (~ prime 2047 /\ mr_decomp 2047 = (1023, 1) /\ length (liars 2047) = 242%nat) /\
+  (~ prime 15 /\ mr_decomp 15 = (7, 1) /\ length (liars 15) = 2%nat) /\
+  (~ prime 49 /\ mr_decomp 49 = (3, 4) /\ length (liars 49) = 6%nat) /\
+  (~ prime 9 /\ mr_decomp 9 = (1, 3) /\ length (liars 9) = 2%nat).
+Proof. exact RabinMonierSeq.rabin_monier_hyps. Qed.
+
+(** [P] the sharper form: the strong liars are at most a quarter of the phi(n) residues in [1, n) prime to n. *)
+Theorem rabin_monier_phi : forall n d c, 9 < n -> Z.odd n = true -> ~ prime n -> mr_decomp n = (d, c) ->
+  exists l u, NoDup l /\ NoDup u /\
+    (forall a, In a l <-> 1 <= a < n /\ strong_liar n d c a) /\
+    (forall a, In a u <-> 1 <= a < n /\ Z.gcd a n = 1) /\
+    4 * Z.of_nat (length l) <= Z.of_nat (length u).
+Proof. exact RabinMonierSeq.rabin_monier_phi. Qed.
+Example rabin_monier_phi_ex : length (RabinMonierZ.units 561) = 320%nat /\ length (RabinMonierZ.units 49) = 42%nat.
+Proof. exact RabinMonierSeq.rabin_monier_phi_ex. Qed.
+
+(** [P] every odd composite n > 2 has at most (n - 1) / 4 strong liars in [1, n) ([rabin_monier] above 9, enumeration for n = 9). *)
+Theorem liar_bound : forall n d c, 2 < n -> Z.odd n = true -> ~ prime n -> mr_decomp n = (d, c) ->
+  exists l, NoDup l /\ (forall a, In a l <-> 1 <= a < n /\ strong_liar n d c a) /\ 4 * Z.of_nat (length l) <= n - 1.
+Proof. exact RabinMonierSeq.liar_bound. Qed.
+
+(** [P] the counting form of "error at most 4^-20": for an odd composite n, of the (n-1)^20 sequences of 20 bases in [1, n) at most
+    ((n-1)/4)^20 are accepting (4^20 * #acc <= (n-1)^20), and a run of the model returns true exactly when the 20 bases it draws from
+    its stream form one of them. No probability is involved: uniformity of the draws is a property of the generator, not of the model. *)
+Theorem liar_fraction : forall n d c, 2 < n -> Z.odd n = true -> ~ prime n -> mr_decomp n = (d, c) ->
+  exists acc all : list (list Z),
+    NoDup acc /\ NoDup all /\
+    (forall bs, In bs all <-> length bs = 20%nat /\ (forall a, In a bs -> 1 <= a < n)) /\
+    (forall bs, In bs acc <-> length bs = 20%nat /\ (forall a, In a bs -> 1 <= a < n /\ strong_liar n d c a)) /\
+    Z.of_nat (length all) = (n - 1) ^ 20 /\
+    4 ^ 20 * Z.of_nat (length acc) <= (n - 1) ^ 20 /\
+    (forall r r', is_prime n r = Done (true, r') <-> exists bs, In bs acc /\ drawn n r bs r').
+Proof. exact RabinMonierSeq.liar_fraction. Qed.
+(** 50 is a non-trivial strong liar of 561 (so accepting sequences other than those made of 1 and 560 exist); 2 is a witness *)
+Example liar_fraction_ex : strong_liar 561 35 4 50 /\ In 50 (liars 561) /\ ~ strong_liar 561 35 4 2.
+Proof. exact RabinMonierSeq.liar_fraction_ex. Qed.
